@@ -131,8 +131,10 @@ def main(argv: list[str]) -> int:
             c["file"] = fn
             ccases.append(c)
     ccases = ccases[:: (10 if tier == "quick" else 2)]
+    for i, c in enumerate(ccases):
+        c["idx"] = i
     cseeds = [0, 7] if tier == "quick" else [0, 7, 12345]
-    chunks = [ccases[i::8] for i in range(8)]
+    chunks = [ccases[i::16] for i in range(16)]
     cjobs = []
     for sd in cseeds:
         for j, ch in enumerate(chunks):
@@ -149,11 +151,12 @@ def main(argv: list[str]) -> int:
         return sd, json.load(open(outp))
 
     by_case: dict[tuple[str, str], dict[int, Any]] = {}
-    with ThreadPoolExecutor(16) as ex:
-        for sd, part in ex.map(crun, cjobs):
-            for cr in part:
-                if not cr.get("skipped"):
-                    by_case.setdefault((cr["file"], cr["name"]), {})[sd] = cr
+    for sd0 in cseeds:          # one seed after the other: the scratch paths are shared between seeds
+        with ThreadPoolExecutor(16) as ex:
+            for sd, part in ex.map(crun, [j for j in cjobs if j[0] == sd0]):
+                for cr in part:
+                    if not cr.get("skipped"):
+                        by_case.setdefault((cr["file"], cr["name"]), {})[sd] = cr
     n_corpus = 0
     for (fn, name), per in sorted(by_case.items()):
         if 0 not in per:
@@ -162,6 +165,12 @@ def main(argv: list[str]) -> int:
             if sd == 0:
                 continue
             n_corpus += 1
+            if cr.get("records") != per[0].get("records"):
+                a, b = cr.get("records") or {}, per[0].get("records") or {}
+                diff = sorted(k for k in set(a) | set(b) if a.get(k) != b.get(k))
+                v.violation("nondet:corpus-records:%s::%s" % (fn, name), {"file": fn, "case": name, "seeds": [0, sd], "records": diff[:20]},
+                            "%s %s: cache records written under PYTHONHASHSEED=%d differ from those written under 0: %s" % (fn, name, sd, ", ".join(diff[:6])))
+                continue
             for phase in ("cold", "warm"):
                 if cr[phase][:2] != per[0][phase][:2]:
                     v.violation("nondet:corpus:%s::%s:%s" % (fn, name, phase), {"file": fn, "case": name, "seeds": [0, sd], "phase": phase, "a": per[0][phase], "b": cr[phase]},
